@@ -195,6 +195,10 @@ let dispatch (fn : string) (args : sx list) : sx =
   | "stats_divisions", [l] ->
       of_opt (of_pair (of_list of_z) (of_list of_nat)) (stats_divisions (get_list (get_pair get_z get_z) l))
   | "presorted_divisions", [l] -> of_opt (of_list of_z) (presorted_divisions (get_list (get_pair get_z get_z) l))
+  | "loc_model", [divs; parts; lo; hi] ->
+      let d = get_list get_z divs and ps = get_list (get_list get_z) parts and l = get_opt get_z lo and h = get_opt get_z hi in
+      (* nested like the Coq tuple (start, stop, divisions, parts) = (((start, stop), divisions), parts) *)
+      L [L [L [of_nat (ls_start d l); of_nat (ls_stop d l h)]; of_list of_z (loc_divisions d l h)]; of_list (of_list of_z) (loc_parts d ps l h)]
   | "dnf_extract", [t] -> of_opt (of_list (of_list of_atom)) (extract (get_ptree t))
   | _ -> failwith ("unknown request " ^ fn)
 (*DISPATCH-END*)
